@@ -360,7 +360,9 @@ func (cc *ClientConn) writeRowsWithEOF(result *mysql.Result, moreRowsExists bool
 		}
 	}
 	if !moreRowsExists {
-		status = status &^ (1 << 3)
+		// status is the status of this result as writeOKResultStream worked it out: when further
+		// results follow, SERVER_MORE_RESULTS_EXISTS must stay in the closing EOF, or the client
+		// takes the answer for complete and reads the next result as the answer to its next command
 		if err = cc.writeEOFPacket(status); err != nil {
 			return err
 		}
